@@ -146,6 +146,27 @@ def reserved_named_document() -> dict:
     return gen.mkdoc(schemas=schemas, paths=paths, title="Reserved names")
 
 
+def endpoint_owned_names_document(d) -> dict:
+    """Parameters named like the names the generated ENDPOINT code uses itself (harvested from the code under test on each run: arguments, locals,
+    imports), declared at operation level, in two locations, with and without a request body."""
+    from . import C18 as c18
+    _, scopes = c18.harvest(d)
+    names = [n for n in scopes["endpoint"] if n.isidentifier() and not n.startswith("__")][:60]
+    S = {"type": "string"}
+    paths = {}
+    k = 0
+    for n in names:
+        for loc in ("query", "path"):
+            for body in (False, True):
+                k += 1
+                op = {"operationId": f"own{k}", "tags": ["own"], "parameters": [{"name": n, "in": loc, "required": True, "schema": S}],
+                      "responses": {"200": {"description": "d", "content": {"application/json": {"schema": {"$ref": "#/components/schemas/OwnOut"}}}}}}
+                if body:
+                    op["requestBody"] = {"content": {"application/json": {"schema": {"$ref": "#/components/schemas/OwnOut"}}}}
+                paths[f"/own{k}" + ("/{%s}" % n if loc == "path" else "")] = {"post": op}
+    return gen.mkdoc(schemas={"OwnOut": {"type": "object", "properties": {"v": S}}}, paths=paths, title="Owned names")
+
+
 def enum_collision_document() -> dict:
     """Inline enums whose derived class names coincide (different parent/property splits): wider first / subset later / equal / disjoint, with defaults."""
     def e(vals, default=None):
@@ -310,6 +331,7 @@ def run(rep) -> None:
         docs["hostile-names"] = hostile_document(HOSTILE)
         docs["reserved-names"] = reserved_named_document()
         docs["enum-collisions"] = enum_collision_document()
+        docs["endpoint-owned-names"] = endpoint_owned_names_document(d)
         docs["defaults-corner"] = defaults_corner_document()
         # titles whose derived project / package names leave ASCII, start with digits, contain dots and dashes or are keywords: names end up in
         # pyproject.toml / setup.py of every flavour
